@@ -322,6 +322,8 @@ def switch_desc(b, S, sb, taken):
         others = sorted(v for v, _ in t["ts"])
         if len(others) == 1 and subj.startswith("discr(") and disc_names:
             return two_variant("%s != %s" % (subj, disc_names.get(others[0], others[0])))
+        if subj.startswith("discr(") and disc_names:
+            others = sorted(disc_names.get(v, v) for v in others)       # variants by name, as in the positive arms
         return "%s not in {%s}" % (subj, ",".join(others))
     return two_variant("%s == %s" % (subj, "|".join(vals)))
 
